@@ -853,7 +853,12 @@ func classifyHang(dump string) (sig string, blocked bool) {
 			body = body[:i]
 		}
 		if fr := InnermostSpineFrame(body); fr != "" {
-			if strings.Contains(fr, "updateHeartbeatData") || strings.Contains(fr, "verifPoint") {
+			if strings.Contains(fr, "verifPoint") {
+				continue
+			}
+			// a heartbeat stream idles in its select between two ticks by design; a stream that has been waiting for
+			// a MUTEX (HeartbeatManager.mux) inside updateHeartbeatData for a minute is parked like any other goroutine
+			if strings.Contains(fr, "updateHeartbeatData") && strings.Contains(head, "select") {
 				continue
 			}
 			return fr, true
